@@ -255,6 +255,26 @@ def quad_lattice(rng, dims, size, jitter, frame, origin, sym=None):
     return [_l(p) for p in pts], cells, pairs, plane
 
 
+def quad_boundary(cells):
+    """vertices of a quad map that lie on an edge used by exactly one quad (textbook definition of the boundary)"""
+    uses = {}
+    for c in cells:
+        for k in range(4):
+            e = frozenset((c[k], c[(k + 1) % 4]))
+            uses[e] = uses.get(e, 0) + 1
+    out = set()
+    for e, n in uses.items():
+        if n == 1:
+            out.update(e)
+    return out
+
+
+def quad_normal(points, cells):
+    c = cells[0]
+    p = geom.arr(points)
+    return geom.unit(np.cross(p[c[1]] - p[c[0]], p[c[3]] - p[c[0]]))
+
+
 def quad_ogrid(rng, size, jitter, frame, origin):
     """unstructured: a core quad surrounded by four quads (3-valent nodes on the core)"""
     fr, o = geom.arr(frame), geom.arr(origin)
@@ -442,10 +462,16 @@ def gen(rng, force=None):
             topo = shape + ("s" + sym[0] if sym else "")
         inplane, normal = (_l(frame[0]), _l(frame[1])), _l(frame[2])
     nv = len(pts)
+    # sketches: SketchOptimizer.auto_optimize() clamps every interior point to the sketch plane itself; manual clamps
+    # then belong on boundary points only (documented use) and no links are mixed in
+    auto = kind == "sketch" and not want_sym and force.get("auto", "ltype" not in force and rng.random() < 0.3)
+    allowed = set(range(nv)) if not auto else quad_boundary(cells)
     # ---- links first (they constrain which vertices may carry which clamp) --------------------------------
     ltypes = []
     if "ltype" in force:
         ltypes = [force["ltype"]] if force["ltype"] else []
+    elif auto:
+        ltypes = []
     elif want_sym:
         ltypes = ["symmetry"] + ([rng.choice(LINK_TYPES)] if rng.random() < 0.3 else [])
     elif rng.random() < 0.45:
@@ -474,7 +500,7 @@ def gen(rng, force=None):
             clamps.append(make_clamp(rng, ct, a, pts[a], size, inplane, normal))
             links.append({"type": "translation", "leader": a, "follower": b})
             used.update((a, b))
-            if rng.random() < 0.25:  # a second follower of the same leader
+            if rng.random() < 0.4:  # a second follower of the same leader
                 free = [i for i in range(nv) if i not in used]
                 if free:
                     c = rng.choice(free)
@@ -492,16 +518,24 @@ def gen(rng, force=None):
             links.append({"type": "rotation", "leader": a, "follower": b,
                           "axis": _l(n * rng.choice([1.0, 1.0, -1.0, 0.5])), "origin": _l(c0 + rng.uniform(-1, 1) * n)})
             used.update((a, b))
+            if rng.random() < 0.3:  # a second follower of the same leader
+                free = [i for i in range(nv) if i not in used]
+                if free:
+                    c = rng.choice(free)
+                    links.append(dict(links[-1], follower=c))
+                    used.add(c)
     # ---- an inert link (leader without a clamp): the follower must not move at all --------------------------
-    if not force and rng.random() < 0.08:
+    if not force and not auto and rng.random() < 0.08:
         free = [i for i in range(nv) if i not in used]
         if len(free) >= 2:
             a, b = rng.sample(free, 2)
             links.append({"type": "translation", "leader": a, "follower": b, "inert": True})
             used.update((a, b))
     # ---- remaining clamps -----------------------------------------------------------------------------------
+    if auto:
+        nclamps = rng.choice([0, 1, 2])
     while len(clamps) < nclamps or ctypes_forced:
-        free = [i for i in range(nv) if i not in used]
+        free = [i for i in range(nv) if i not in used and i in allowed]
         if not free:
             break
         v = rng.choice(free)
@@ -510,12 +544,20 @@ def gen(rng, force=None):
         used.add(v)
     rng.shuffle(clamps)
     iterations = rng.choice([1, 2, 2, 3])
+    if auto:  # cost: every interior point is a clamp step of ~200 quality evaluations
+        iterations = 1 if len(set(range(nv)) - quad_boundary(cells)) > 2 else rng.choice([1, 2])
+    # a second optimize() call on the already optimised grid: little is left to gain, so nearly every step ends in the
+    # rollback branch and any worsening a step leaves behind shows in the sum
+    calls = 1 if auto else force.get("calls", rng.choice([1, 1, 2]))
+    if calls == 2:
+        iterations = min(iterations, 2)
     case = {"kind": kind, "topo": topo, "size": size, "points": pts, "cells": cells, "clamps": clamps, "links": links,
             "method": force.get("method") or rng.choice(METHODS), "iterations": iterations,
-            "tolerance": rng.choice([0.1, 1e-3, 1e-6]), "failpoint": None}
+            "tolerance": rng.choice([0.1, 1e-3, 1e-6]), "failpoint": None, "auto": bool(auto), "calls": calls}
     fp = force.get("failpoint")
     if fp or (fp is None and rng.random() < 0.3):
-        case["failpoint"] = {"step": rng.randrange(len(clamps) * (1 if rng.random() < 0.6 else iterations)),
+        nsteps = len(clamps) + (len(set(range(nv)) - quad_boundary(cells)) if auto else 0)
+        case["failpoint"] = {"step": rng.randrange(max(1, nsteps) * (1 if rng.random() < 0.6 else iterations)),
                              "eval": rng.choice([1, 1, 2, 3, 5, 9, 17, 40])}
     return case
 
